@@ -40,11 +40,15 @@ func fieldsSrc(in *Input, fs []Field, from string, indent string) string {
 
 func importsSrc(in *Input, pkgs map[string]bool, self string) string {
 	var paths []string
+	name := map[string]string{}
 	for p := range pkgs {
 		if p == self || p == "" {
 			continue
 		}
 		paths = append(paths, pkgPathOf(in, p))
+		if declNameOf(in, p) != pkgNameOf(in, p) {
+			name[pkgPathOf(in, p)] = pkgNameOf(in, p) + " " // the sources qualify by the directory name
+		}
 	}
 	sort.Strings(paths)
 	if len(paths) == 0 {
@@ -53,7 +57,7 @@ func importsSrc(in *Input, pkgs map[string]bool, self string) string {
 	var b strings.Builder
 	b.WriteString("import (\n")
 	for _, p := range paths {
-		fmt.Fprintf(&b, "\t%q\n", p)
+		fmt.Fprintf(&b, "\t%s%q\n", name[p], p)
 	}
 	b.WriteString(")\n\n")
 	return b.String()
@@ -83,8 +87,8 @@ func writeModule(in *Input, dir string) error {
 
 	// ---- lib package (element types; imports nothing) and rpl (a hand-written partial of origin.Inner; imports origin)
 	lib := in.LibPkg
-	files[lib+"/lib.go"] = "package " + lib + "\n\ntype Item struct{ N int }\n\ntype Code int\n"
-	files["rpl/rpl.go"] = "package rpl\n\nimport " + fmt.Sprintf("%q", pkgPathOf(in, "origin")) + "\n\n" +
+	files[lib+"/lib.go"] = "package " + declNameOf(in, "lib") + "\n\ntype Item struct{ N int }\n\ntype Code int\n"
+	files["rpl/rpl.go"] = "package rpl\n\nimport " + in.OriginPkg + " " + fmt.Sprintf("%q", pkgPathOf(in, "origin")) + "\n\n" +
 		"// R is a hand-written partial of Inner\ntype R struct{ X int }\n\nfunc (in *R) DeepCopyIntoAs(out *" + in.OriginPkg + ".Inner) { out.X = in.X }\n"
 
 	used := map[string]bool{}
@@ -93,17 +97,65 @@ func writeModule(in *Input, dir string) error {
 			continue
 		}
 		for j := range in.Types[i].Fields {
-			in.Types[i].Fields[j].Ty.pkgs(used)
+			ty := &in.Types[i].Fields[j].Ty
+			ty.srcPkgs(used)
+			ty.aliases(func(a *Ty) { a.Elem.srcPkgs(used) }) // the alias declarations live in this file
 		}
 	}
 	delete(used, "target")
 	var ob strings.Builder
-	ob.WriteString("package " + in.OriginPkg + "\n\n")
+	ob.WriteString("package " + declNameOf(in, "origin") + "\n\n")
 	ob.WriteString(importsSrc(in, used, "origin"))
 	ob.WriteString("type Inner struct {\n\tX int\n\tY string `json:\"y\"`\n}\n\ntype Kind string\n\n")
 	ob.WriteString("type Iface interface{ M() string }\n\ntype Impl struct{ S string }\n\nfunc (i Impl) M() string { return i.S }\n\n")
 	ob.WriteString("type WithAs struct{ V int }\n\n")
 	ob.WriteString(withAsSrc(in.WithAs))
+	// alias declarations (sorted by name), the unexported types and the internal package they may stand for
+	aliasDecl := map[string]string{}
+	hidden, internal := map[string]bool{}, false
+	for i := range in.Types {
+		if mentionsTarget(&in.Types[i]) {
+			continue
+		}
+		for j := range in.Types[i].Fields {
+			ty := &in.Types[i].Fields[j].Ty
+			ty.aliases(func(a *Ty) {
+				if _, ok := aliasDecl[a.Name]; !ok && a.Elem != nil {
+					aliasDecl[a.Name] = a.Elem.src(in, "origin")
+				}
+			})
+			ty.named(func(n *Ty) {
+				if n.Pkg == "origin" && !exported(n.Name) {
+					hidden[n.Name] = true
+				}
+				internal = internal || n.Pkg == "internal"
+			})
+		}
+	}
+	var aliasNames []string
+	for n := range aliasDecl {
+		aliasNames = append(aliasNames, n)
+	}
+	sort.Strings(aliasNames)
+	for _, n := range aliasNames {
+		fmt.Fprintf(&ob, "type %s = %s\n\n", n, aliasDecl[n])
+	}
+	var hiddenNames []string
+	for n := range hidden {
+		hiddenNames = append(hiddenNames, n)
+	}
+	sort.Strings(hiddenNames)
+	for _, n := range hiddenNames {
+		if n == "secret" {
+			fmt.Fprintf(&ob, "type %s string\n\n", n)
+		} else {
+			fmt.Fprintf(&ob, "type %s struct {\n\tN int\n\tS string\n}\n\n", n)
+		}
+	}
+	if internal {
+		files[in.OriginPkg+"/internal/"+internalPkgName+"/"+internalPkgName+".go"] = "package " + internalPkgName +
+			"\n\ntype Item struct {\n\tN int\n\tS string\n}\n\ntype Entry struct{ W float64 }\n\ntype Code int\n"
+	}
 	for i := range in.Types {
 		ot := &in.Types[i]
 		if mentionsTarget(ot) {
@@ -129,7 +181,7 @@ func writeModule(in *Input, dir string) error {
 				locals = append(locals, s.Origin)
 			}
 			for j := range in.Types[s.Origin].Fields {
-				in.Types[s.Origin].Fields[j].Ty.pkgs(tused)
+				in.Types[s.Origin].Fields[j].Ty.srcPkgs(tused)
 			}
 		}
 	}
